@@ -438,7 +438,7 @@ impl Property for C27 {
         "daemon path: panics inside the blocking load task are absorbed by tokio in this (unwinding) build; they are detected by the library-level cases instead",
     ];
     const QUICK_CASES: u32 = 600_000;
-    const THOROUGH_CASES: u32 = 10_000_000;
+    const THOROUGH_CASES: u32 = 80_000_000;
 
     fn strategy(_tier: Tier) -> BoxedStrategy<Case> {
         prop_oneof![
@@ -482,6 +482,12 @@ impl Property for C27 {
 
     fn enumeration_note() -> Option<&'static str> {
         Some("complete: all prefixes of stored images for 1..=5 keys x rotations {0,1,3} x history {0,1,4}; all 4 header fields x 8 boundary values x 0..=5 keys; 25 daemon scenarios (fresh start under 4 umasks, 3 well-formed files, 7 crash-point prefixes, 11 header corruptions)")
+    }
+
+    /// fuzzer input: one selector byte (history), then the bytes of a key file
+    fn from_bytes(data: &[u8]) -> Option<Case> {
+        let (&sel, rest) = data.split_first()?;
+        Some(Case::Garbage { bytes: rest[..rest.len().min(400)].to_vec(), history: sel % 5 })
     }
 
     fn check(case: &Case) -> Outcome {
